@@ -3,7 +3,7 @@ import vf
 SPEC = dict(
     level="proof",
     harness=dict(pkg_dir="index", run="TestVerifC16$", files=["index/zz_verif_c16_test.go"],
-                 n_quick=70, n_thorough=900),
+                 n_quick=70, n_thorough=550),
     runner=dict(imports=["From ZV Require Import Lib.Base Model.MergeDocs."], case_type="c16case",
                 mismatch_fn="c16_mismatches", shard=60),
     rule="random simple shards built with the real ShardBuilder (1-4 repos per round, distinct priorities, 1-3 branches "
@@ -16,9 +16,11 @@ SPEC = dict(
                   "fields, decoding of outputs with the accessors addDocument uses, Go oracle = fixed query battery over "
                   "inputs vs outputs incl. branch/lang/symbol/regexp queries and List)",
                   "model abstractions: strings are identifiers; branch mask = bit list; symbols/category opaque payload; "
-                  "postings not modelled (search equivalence is checked by the oracle, not proved)"],
+                  "postings / query engine not modelled: search equivalence is proved for every document-local engine (hypothesis), "
+                  "document-locality of indexData.Search/List itself is checked by the oracle's query battery (cf. C01), not proved here"],
     assumptions=["input shards well-formed (wf_shard): masks as long as the branch list, distinct branch names and sub-repo paths, "
-                 "indices in range"],
+                 "indices in range; for totality additionally mergeable: repo indices of live documents non-decreasing, live repositories with "
+                 "documents have <= 64 branches (proved necessary: C16_merge_ok_mergeable); the runner evaluates both on every generated input"],
 )
 
 
